@@ -6,6 +6,10 @@ VERIF = os.path.dirname(os.path.dirname(os.path.abspath(__file__)))
 
 # id -> (design section, technique, level text, level note)
 CLAIMED = {
+ "C13": ("3/C13",
+  "agreement (sibling/table) rules over SSA value origins: every threshold source is GetGroupK(member count); evaluation-point and key/value pairing in dealer, collector and combiner; modulus identity of every Mod/ModInverse; Lagrange loop shape (guard, operand roles, sign parity, index ranges); dealer constant-coefficient agreement; ownership rule (no in-place curve operation through an input or a shallow copy of one)",
+  "Structural necessary conditions of subset/order independence, decided for the current source: dealer, collector and combiner agree on threshold, evaluation points (incl. a value-preserving id key encoding), scalar modulus and constant coefficient; the Lagrange coefficient has the shape Π_{j≠i} x_j/(x_j−x_i) over all indices; recovery and aggregation never write through the collected shares. Exhaustive over the call sites and functions named (≈50 obligations). The algebraic identity itself — that interpolation over any ≥k points gives the same group element and that it verifies — is NOT decided; this is a thin claim.",
+  "Trusted: math/big and bn256 group arithmetic; distinct non-zero ids; go/ssa lowering. Rules R13.2(f) and R13.5 were added while building (see DESIGN.md §3 C13 and §8)."),
  "C12": ("3/C12",
   "SSA/CFG must-pass-through with value-sensitive path search; call-graph cone (VTA) vs jump-table row flags; who-may-write on a struct field",
   "Structural necessary conditions of the property decided for every path / table row / writer of the current source: every EVM frame entry reverts to its snapshot on every non-nil-error return; every jump-table row whose handler can reach a raw state setter is write-protected; the static flag is sticky; Prepare resets every per-transaction scratch field and is called before each transaction. Exhaustive over the finite syntactic space (6 frame entries, ~150 rows, all stores to readOnly); the behavioural remainder (state equality as a value) is not decided.",
